@@ -488,7 +488,7 @@ def run(tier: str, driver_ok: bool) -> Result:
                 writes = [e["write"] for e in m["events"] if isinstance(e, dict)]
                 if bool(writes) != bool(x["written"]):
                     res.disagreement("ksrsigner: model and implementation disagree on whether an SKR is written", x["case"], impl, m["result"])
-                elif writes and S.response_sorted_j(writes[0]) != R.canon_written(x["file_after"]):
+                elif writes and S.response_sorted_j(writes[0]) != canon_or_none(x["file_after"]):
                     res.disagreement("ksrsigner: model writes a different SKR", x["case"], impl, m["result"])
                 elif writes:
                     # the WHOLE file as an independent XML parser reads it, bundles in document order (not a prefix of the file)
@@ -645,6 +645,14 @@ def listing_stream(j: Judge, r: Any, work: Path, tier: str) -> None:
             if ref is None and o["written"]:
                 ref = o["file_after"]  # the order of listing must not show in the SKR at all
             res.bump("schema-listing:" + ("ascending" if listing == sorted(listing) else "out-of-order"))
+
+
+def canon_or_none(xml_bytes: bytes) -> Any:
+    """The written file as the repository's reader sees it; None when it cannot be read back (never equal to a model SKR)."""
+    try:
+        return R.canon_written(xml_bytes)
+    except Exception:  # noqa: BLE001
+        return None
 
 
 def swap_key(world: Any, label: str, tk: K.TestKey) -> None:
